@@ -25,6 +25,10 @@ func init() {
 		Families: func(c *mon.Config) []mon.Family {
 			return []mon.Family{
 				{Name: "cold-start", N: 1, Serial: true, Run: func(w *mon.W, _ int) {
+					if !coldFirst(w, coldPick(coldBitmapCalls(), "NextOne", "PrevOne")) {
+						return
+					}
+					defer coldLast(w, coldPick(coldBitmapCalls(), "NextOne", "PrevOne"))
 					for _, b := range [][]uint64{{0}, {^uint64(0)}, {0, 0, 0}, {1 << 63}, {1}} {
 						if !c13All(w, b) {
 							return
